@@ -142,6 +142,13 @@ def main(argv=None):
         for ln in res['lines']:
             ck.count('line:' + ln.split()[0])
         ck.count('cases:%s:%s' % (case['level'], case['flavor']))
+        for dim in ('layout', 'cfg', 'hex', 'demo', 'copy', 'mdb'):
+            if case.get(dim):
+                ck.count('dim:%s:%s' % (dim, case[dim]))
+        if case.get('oid_base'):
+            ck.count('dim:oid_base:%s' % ('>=2^32' if case['oid_base'] >= 2 ** 32 else '<2^32'))
+        if case.get('dbo'):
+            ck.count('dim:db-options')
         sample = None
         if res['nontrivial']:
             sample = dict(case=dict(case, ops=case['ops'][:10]), lines=res['lines'][:14], real=res['real'][:14])
